@@ -1,0 +1,25 @@
+//go:build verif
+
+package vm
+
+import "github.com/paulsonkoly/calc/memory"
+
+// Read-only accessors for verification harnesses.
+
+// VerifMainIP is the instruction pointer the next Run resumes at.
+func (vm *Type) VerifMainIP() int { return vm.main.ip }
+
+// VerifMainMemory is the memory of the main context.
+func (vm *Type) VerifMainMemory() *memory.Type { return vm.main.m }
+
+// VerifLiveContexts counts iterator contexts reachable from the main context.
+func (vm *Type) VerifLiveContexts() int { return countContexts(vm.main) }
+
+func countContexts(c *context) int {
+	n := 0
+	c.children.ForEach(func(_ uint64, child *context) bool {
+		n += 1 + countContexts(child)
+		return true
+	})
+	return n
+}
